@@ -12,8 +12,8 @@ import Rustemo.Model.AstGen
   order `Tree::build` / the LR parser call the builder (children first, left to right),
 * `shapesOf` — the shapes the generator derives from the inferred types.
 
-`Shapes.fixed` switches the one definition that differs between the code as it is (`false`:
-`a.push(b)` also when the vector is the RIGHT operand, finding F7) and the proposed repair
+`Shapes.fixed` (= `Fixes.vecRight`) switches the one definition that differs between the code before the
+repair of F7 (`false`: `a.push(b)` also when the vector is the RIGHT operand) and /repo as it is now
 (`true`: `a.insert(0, b)` there).
 -/
 namespace Rustemo.Ast
@@ -233,8 +233,8 @@ def shapesOf (g : AGrammar) (ts : List SymType) (fixed : Bool) : Shapes :=
     terms := (false, false) :: g.terms.map (fun t => (t.content, t.reach)),
     prods := (enumFrom 0 g.prods).map (fun ip => shapeOfProd g ts ip.1 ip.2) }
 
-/-- the variant of the model that mirrors /repo as it is -/
-def repoFixed : Bool := false
+/-- the shapes of a variant of the generator (`Shapes.fixed` = `fx.vecRight`) -/
+def shapesFor (fx : Fixes) (g : AGrammar) (ts : List SymType) : Shapes := shapesOf g ts fx.vecRight
 
 end Rustemo.Ast
 
